@@ -17,13 +17,17 @@ open StorageModel
     * `subRows c n` — the row contexts (in the linked entity type) of the successive elements of
                       `OpenSetCursor(n)`, as `OpenSetCursorForQuery` visits them;
     * `nilRow c`    — the context stands for an element whose `cursor.Current()` is nil (a null
-                      link inside a dotted set symbol): `uniqueIndexScanner` skips it. -/
+                      link inside a dotted set symbol): `uniqueIndexScanner` skips it;
+    * `rowLe so a b`— the order `sort by so` puts two rows in (`so`: the sort fields, `true` =
+                      ascending).  Only the specification mentions it: the scanner behind a
+                      sub-query (`newCursorScanner`) never looks at the query's sort fields. -/
 structure World (C F : Type) where
   val : C → String → SVal F
   elems : C → String → List (SVal F)
   seekable : C → String → Bool
   subRows : C → String → List C
   nilRow : C → Bool
+  rowLe : List (String × Bool) → C → C → Bool := fun _ _ _ => true
 
 variable {C F : Type}
 
@@ -158,7 +162,7 @@ def evalStr (w : World C F) (fo : FloatOps F) (c : C) (lk : String → SVal F) :
   | .i2f x => evalStr w fo c lk x
   | .upper e => (evalStr w fo c lk e).map toUpper
   | .count n => some (fmtInt (w.elems c n).length)
-  | .countQ n q skip limit =>
+  | .countQ n q _ skip limit =>
     some (fmtInt (scanCount (fun c' => evalBool w fo c' (w.val c') q) w.nilRow (pagingOffset skip) (pagingLimit limit)
       (w.subRows c n) 0 0))
   | _ => none
@@ -169,7 +173,7 @@ def evalInt (w : World C F) (fo : FloatOps F) (c : C) (lk : String → SVal F) :
   | .intSym n => (lk n).toInt
   | .anySym n => (lk n).toInt
   | .count n => some (w.elems c n).length
-  | .countQ n q skip limit =>
+  | .countQ n q _ skip limit =>
     some (scanCount (fun c' => evalBool w fo c' (w.val c') q) w.nilRow (pagingOffset skip) (pagingLimit limit)
       (w.subRows c n) 0 0)
   | _ => none
@@ -236,7 +240,7 @@ def evalBool (w : World C F) (fo : FloatOps F) (c : C) (lk : String → SVal F) 
     else (w.elems c n).any fun e =>
       binStrSem op (evalStr w fo c (bind lk n e) l) (evalStr w fo c (bind lk n e) r)
   | .isEmpty n => (w.elems c n).isEmpty
-  | .isEmptyQ n q skip limit =>
+  | .isEmptyQ n q _ skip limit =>
     scanCount (fun c' => evalBool w fo c' (w.val c') q) w.nilRow (pagingOffset skip) (pagingLimit limit)
       (w.subRows c n) 0 0 == 0
   | _ => false
